@@ -88,6 +88,13 @@ func NewIPTransport(config Config, a *accessory.Accessory, as ...*accessory.Acce
 
 	cfg.load(storage)
 
+	// The id is stored before the key pair which is stored under it. When the process stops in
+	// between, the next start finds the id and creates the key pair, instead of a second id and a
+	// second key pair (which then counts as a pairing).
+	if err := storage.Set("uuid", []byte(cfg.id)); err != nil {
+		return nil, err
+	}
+
 	device, err := hap.NewSecuredDevice(cfg.id, hap_pin, database)
 	if err != nil {
 		return nil, err
@@ -220,11 +227,14 @@ func (t *ipTransport) XHMURI() (string, error) {
 // isPaired returns true when the transport is already paired
 func (t *ipTransport) isPaired() bool {
 
-	// If more than one entity is stored in the database, we are paired with a device.
-	// The transport itself is a device and is stored in the database, therefore
-	// we have to check for more than one entity.
-	if es, err := t.database.Entities(); err == nil && len(es) > 1 {
-		return true
+	// The transport itself is a device and is stored in the database too.
+	// An entity is a controller when it has no private key.
+	if es, err := t.database.Entities(); err == nil {
+		for _, e := range es {
+			if len(e.PrivateKey) == 0 {
+				return true
+			}
+		}
 	}
 
 	return false
